@@ -249,6 +249,8 @@ func leafDocs() []Doc {
 	}
 	add("json?", mt("application", "x-unknown", "json"), jd(jsons[1])) // unknown +json type -> generic JSON
 	add("json?", mt("image", "é.x", "json"), jd(jsons[0]))
+	add("json?", mt("application", "vnd.Acme.OrderStatus", "json"), jd(jsons[0])) // case is part of the name
+	add("text?", mt("Text", "X-Custom", ""), lime.TextDocument("u"))
 	add("text?", mt("text", "x-unknown", ""), lime.TextDocument("u"))           // unknown text/* -> text
 	add("text?", mt("application", "octet.stream", ""), lime.TextDocument(Esc)) // any other unregistered non-json type -> text
 	add("ping", lime.MediaTypePing(), &lime.Ping{})
